@@ -50,33 +50,75 @@ def _for_cvc5(text):
     return "(set-logic ALL)\n" + text
 
 
+def _cmd(sv, timeout_s):
+    if sv == "z3new":
+        return [Z3_NEW, "-smt2", "-in", "-T:%d" % timeout_s]
+    if sv == "z3old":
+        return [Z3_OLD, "-smt2", "-in", "-T:%d" % timeout_s]
+    return [CVC5, "--lang=smt2", "--tlimit=%d" % (timeout_s * 1000), "--strings-exp", "--produce-models"]
+
+
+def _parse(out, err=""):
+    first = out.strip().splitlines()[0].strip() if out.strip() else ""
+    if first in ("sat", "unsat", "unknown"):
+        return first, out[len(first):].strip()
+    if "timeout" in out:
+        return "unknown", "timeout"
+    return "error", (out + err)[:1500]
+
+
 def solve_text(text, timeout_s=10, strings=None, solvers=None):
-    """-> dict(status, solver, time, detail)."""
-    if strings is None:
-        strings = "String" in text or "str." in text
-    order = solvers or (["cvc5", "z3new", "z3old"] if strings else ["z3new", "cvc5", "z3old"])
-    tried = []
-    total = 0.0
+    """Run the portfolio concurrently; the first sat/unsat answer wins. -> dict(status, solver, time, detail)."""
+    order = solvers or ["z3new", "cvc5", "z3old"]
+    t0 = time.time()
+    procs = []
     for sv in order:
-        if sv == "z3new":
-            st, detail, dt = _run([Z3_NEW, "-smt2", "-in", "-T:%d" % timeout_s], text, timeout_s)
-        elif sv == "z3old":
-            st, detail, dt = _run([Z3_OLD, "-smt2", "-in", "-T:%d" % timeout_s], text, timeout_s)
-        else:
-            args = [CVC5, "--lang=smt2", "--tlimit=%d" % (timeout_s * 1000), "--strings-exp", "--produce-models"]
-            st, detail, dt = _run(args, _for_cvc5(text), timeout_s)
-        total += dt
-        tried.append("%s:%s:%.2fs" % (sv, st, dt))
-        if st in ("sat", "unsat"):
-            return {"status": st, "solver": sv, "time": round(total, 3), "detail": detail[:4000], "tried": tried}
-    return {"status": "unknown", "solver": "-", "time": round(total, 3), "detail": "; ".join(tried), "tried": tried}
+        inp = _for_cvc5(text) if sv == "cvc5" else text
+        try:
+            p = subprocess.Popen(_cmd(sv, timeout_s), stdin=subprocess.PIPE, stdout=subprocess.PIPE, stderr=subprocess.PIPE, text=True)
+            p.stdin.write(inp)
+            p.stdin.close()
+            procs.append((sv, p))
+        except OSError as ex:
+            continue
+    tried, result = [], None
+    pending = list(procs)
+    deadline = t0 + timeout_s + 3
+    while pending and result is None:
+        for sv, p in list(pending):
+            if p.poll() is not None:
+                pending.remove((sv, p))
+                out, err = p.stdout.read(), p.stderr.read()
+                st, detail = _parse(out, err)
+                tried.append("%s:%s:%.2fs" % (sv, st, time.time() - t0))
+                if st in ("sat", "unsat"):
+                    result = {"status": st, "solver": sv, "time": round(time.time() - t0, 3), "detail": detail[:4000]}
+                    break
+        if result is None and pending:
+            if time.time() > deadline:
+                break
+            time.sleep(0.01)
+    for sv, p in pending:
+        try:
+            p.kill()
+        except OSError:
+            pass
+        try:
+            p.stdout.close(); p.stderr.close()
+        except Exception:  # noqa
+            pass
+        p.wait()
+    if result is None:
+        result = {"status": "unknown", "solver": "-", "time": round(time.time() - t0, 3), "detail": "; ".join(tried) or "all solvers timed out"}
+    result["tried"] = tried
+    return result
 
 
 def discharge(obligations, timeout_s=10, jobs=None, progress=None):
     """obligations: list of engine.Obligation -> list of result dicts (same order)."""
     texts = [to_smt2(o.pc, o.goal, get_model=True) for o in obligations]
     results = [None] * len(texts)
-    with cf.ThreadPoolExecutor(max_workers=jobs or NPROC) as ex:
+    with cf.ThreadPoolExecutor(max_workers=jobs or max(4, NPROC // 2)) as ex:
         futs = {ex.submit(solve_text, t, timeout_s): i for i, t in enumerate(texts)}
         for f in cf.as_completed(futs):
             i = futs[f]
